@@ -27,7 +27,7 @@ DISABLE = ["MinimiseProgramTransformer", "RemoveRelationCopiesTransformer", "Rem
 
 def cfg_fn(rng):
     return dict(p_recursive=1.0, p_aggregate=0.0, p_head_aggr=0.0, p_disj=0.0, p_multihead=0.0, p_eqrel=0.0, p_range=0.0,
-                p_unnamed=0.0, body_atoms=(1, 4), rules_per_rel=(2, 4), p_negation=0.3, rec_guard=rng.choice([12, 25, 40]),
+                p_unnamed=0.0, body_atoms=(1, 4), p_rec_atom=rng.choice([0.3, 0.6, 0.9]), rules_per_rel=(2, 4), p_negation=0.3, rec_guard=rng.choice([12, 25, 40]),
                 n_idb=(2, 5), max_facts=rng.choice([6, 12, 18]), p_nullary=0.0)
 
 
@@ -98,7 +98,8 @@ def worker(arg):
     rng = random.Random(seed)
     prog = progen.generate(seed, cfg_fn(rng))
     if rng.random() < 0.6:
-        c23.add_chain(prog, rng)          # a closure over a long chain: many iterations
+        # a closure over a long chain: many iterations; "triple" / "quad-mutual" have three recursive atoms (delta versions 0-2)
+        c23.add_chain(prog, rng, shapes=["linear", "nonlinear", "mutual", "triple", "triple", "quad-mutual"])
     text0 = dl.fmt_program(prog)
     rec = dict(seed=seed, hash=runner.prog_hash(text0), features=sorted(prog.features), counts={})
     try:
@@ -199,6 +200,7 @@ def worker(arg):
                 clauses_of = {}
                 for c in rec_clauses:
                     clauses_of.setdefault(c.heads[0].rel, []).append(c)
+                ev.steps = 0           # a fresh work budget for the counting phase
                 try:
                     for k in range(len(S)):
                         # souffle's loop iteration k works on state S_k with delta D_k (the loop also runs once on the final state)
@@ -215,6 +217,9 @@ def worker(arg):
                                 viols.append((K("derivation-count:" + ("too-many" if seen > expected else "too-few")),
                                               "%s, iteration %d: the rule versions reached the head %d times; there are %d body combinations with at least one new tuple and an unknown head\n%s" % (
                                                   rn, k, seen, expected, text)))
+                except refeval.Undefined:
+                    # the model's work budget is exhausted: the counts of this stratum are not compared
+                    rec["counts"]["strata_too_expensive_to_count"] = rec["counts"].get("strata_too_expensive_to_count", 0) + 1
                 finally:
                     for rn in comp:
                         ev.db[rn] = set(final[rn])
